@@ -290,6 +290,22 @@ class ExecutionState:
         with self._operations_lock:
             self.operations.update({op.operation_id: op for op in all_operations})
 
+    def enter_replay_if_history_loaded(self) -> None:
+        """Switch to REPLAY when operations other than the EXECUTION one have been loaded.
+
+        The initial page of the invocation payload may carry only the EXECUTION operation (or
+        nothing at all) while the history arrives through later pages, so the replay status must
+        be decided after all pages were fetched, not from the first page alone.
+        """
+        with self._operations_lock:
+            has_history = any(
+                op.operation_type != OperationType.EXECUTION
+                for op in self.operations.values()
+            )
+        if has_history:
+            with self._replay_status_lock:
+                self._replay_status = ReplayStatus.REPLAY
+
     def track_replay(self, operation_id: str) -> None:
         """Check if operation exists with completed status; if not, transition to NEW status.
 
